@@ -390,6 +390,18 @@ def sub_beat_closers(ctx, shard, n):
     ctx.given("history", check_history, strat, 400 if ctx.quick else 3000)
 
 
+def sub_churn(ctx, shard, n):
+    """place-and-remove cycles on tuplet beats (any residue a removal leaves behind accumulates), then an exact refill"""
+    tup = [v for v in RV.VOCAB if v[2] != 1 and v[0] <= 32] + [v for v in RV.VOCAB if v[1] >= 1 and v[0] <= 16]
+    cycle = st.tuples(st.lists(st.sampled_from(tup), min_size=1, max_size=4), st.integers(1, 4)).map(
+        lambda t: [["place", "str", [["C", 4]], v] for v in t[0]] + [["rm"]] * min(t[1], len(t[0])))
+    strat = st.fixed_dictionaries({
+        "meter": st.sampled_from([[4, 4], [3, 4], [6, 8], [5, 4], [2, 2], [12, 8], [7, 8], [9, 8]]),
+        "ops": st.lists(cycle, min_size=2, max_size=8).map(lambda cs: [op for c in cs for op in c] + [
+            ["approach", 0], ["fill", "note", [["E", 4]], False], ["rest", [128, 0, 1, 1]]])})
+    ctx.given("history", check_history, strat, 300 if ctx.quick else 3000)
+
+
 def sub_meters(ctx, shard, n):
     units = list(range(-8, 70)) + [2 ** k for k in range(7, 40)] + [2 ** k + 1 for k in range(2, 40)] + [96, 1000, 4096] + \
             [0.5, 0.25, 1.5, 2.5, 3.0, 4.0, 8.0, 6.0, 2.0 ** 60, 2.0 ** 1023, "inf", "nan", "-inf", -4.0, 1e-3, 4.000000001]
@@ -410,5 +422,6 @@ SUBS = [
     Sub("mixed_fills", sub_mixed_fills, quick=2, thorough=8),
     Sub("near_boundary", sub_near_boundary),
     Sub("beat_closers", sub_beat_closers, quick=3, thorough=8),
+    Sub("churn", sub_churn, quick=3, thorough=8),
     Sub("meters", sub_meters),
 ]
